@@ -1,5 +1,5 @@
 CFG = {
-    "modules": ["Parsley.Props.C02", "Parsley.Props.C16", "Parsley.Props.C02Struct"],
+    "modules": ["Parsley.Props.C02", "Parsley.Props.C16", "Parsley.Props.C02Struct", "Parsley.Lemmas.SpellEncoder", "Parsley.Props.C02Encoder"],
     "theorems": ["Parsley.C02.name_window_decoder_eq", "Parsley.C02.name_spelling_decodes", "Parsley.C02.name_roundtrip", "Parsley.C02.integer_spec", "Parsley.C02.integer_roundtrip",
                  "Parsley.C02.hexstring_spec", "Parsley.C02.litstring_roundtrip", "Parsley.C02.litLoop_balanced",
                  "Parsley.C02.real_spec", "Parsley.C02.ws_loop_eq_skip", "Parsley.C02.skipWs_run", "Parsley.C02.wsRun_run",
@@ -13,17 +13,14 @@ CFG = {
                  "Parsley.C02.follows_in_dict", "Parsley.C02.lookAhead_elems", "Parsley.C02.lookAhead_sep_tok",
                  "Parsley.C02.within_bound_accepted", "Parsley.C02.dict_no_null_values",
                  "Parsley.C02.dict_duplicate_rejected", "Parsley.C02.Spells.depth_le",
-                 "Parsley.C02.spell_is_Spells_partial"],
-    "partial": {"Parsley.C02.spell_is_Spells_partial": "the FULL statement `spell_parse` is proved (Props/C02Struct.lean): for every value, every legal spelling "
-                "in the relational spec `Spells d v tok` (mutual over values, array element lists and dictionary entry lists; separators non-empty exactly "
-                "between regular characters; null-valued entries dropped, repeated non-null keys excluded), every leading whitespace/comment run, every "
-                "context satisfying the declarative condition `Follows` (proved equivalent to what the parser needs: lookAhead_iff_refTail) and every "
-                "parser context with cur + d <= max, parse_pdf_obj returns exactly the value, located at the spelling, cursor after its last byte, depth "
-                "restored. What is partial is only the link from the relational spec to the EXECUTABLE encoder `spell` of Spec/Spelling.lean that the "
-                "driver uses as generator: proved for ALL scalars - keywords, integers, reals (spellReal), names, literal and hexadecimal strings "
-                "(hexBody_spec) and references (object number <= i64 max, which `wf` does not state); NOT proved for the encoder's arrays and dictionaries "
-                "(sepFor on bytes vs. on value kinds; the encoder's extra `/#01nul null` entry needs the key to be unused; `wf` does not require sorted, "
-                "duplicate-free dictionaries). For those the generator/spec agreement is decided by the correspondence run.",
+                 "Parsley.C02.spell_is_Spells", "Parsley.C02.spellElems_is_Spells", "Parsley.C02.spellEntries_is_Spells",
+                 "Parsley.C02.spell_parse_encoder", "Parsley.C02.spell_parse_encoder_canon", "Parsley.C02.spell_parse_encoder_at",
+                 "Parsley.C02.encoder_within_bound_accepted", "Parsley.C02.encoder_depth_le", "Parsley.C02.canon_sorted",
+                 "Parsley.C02.Spells.mono", "Parsley.C02.Spells.starts_regular", "Parsley.C02.Spells.ends_regular",
+                 "Parsley.C02.sepFor_run", "Parsley.C02.follows_canon", "Parsley.C02.genContexts_follow",
+                 "Parsley.C02.generator_case_parses", "Parsley.C02.dup_key_witness", "Parsley.C02.nulKey_not_last_witness",
+                 "Parsley.C02.null_value_witness", "Parsley.C02.ref_range_witness"],
+    "partial": {
                 "(depth)": "the depth hypothesis of spell_parse is on the SPELLING depth d (index of `Spells`), not on depth(v): a dropped null-valued "
                 "entry still needs one nesting level (`<</A null>>` has value depth 1 but is rejected at cur+1 = max by the real parser and the model); "
                 "Spells.depth_le proves depth v <= d."},
@@ -33,13 +30,19 @@ CFG = {
             "dictionaries) x random encoder choices (whitespace/comment runs, #hh vs raw and hex case, literal vs hex strings, hex whitespace, "
             "odd-digit shorthand, signs, leading zeros, entry order, null-valued entries) x 15 following contexts x depth slack 0..2; one "
             "single-byte mutation/truncation and one duplicate-key spelling per value. non-trivial = spelling of >= 4 bytes (distinct by case hash)",
-    "trusted_base": COMMON_TB + ["modelled, not verified: ParseBuffer primitives as list functions; the spec-side encoder `spell` defines what a legal spelling is"],
+    "trusted_base": COMMON_TB + ["modelled, not verified: ParseBuffer primitives as list functions; the relational spec `Spells` defines what a legal spelling is (the encoder `spell` used as generator is proved to produce legal spellings on its whole domain `wfDeep`; every generated value is checked to lie in `wfDeep` at generation time and at build time)"],
     "assumptions": ["integers range over -(2^63-1)..2^63-1 (i64::MIN has no accepted spelling); reals are (numerator, 10^k) with k >= 1, unnormalised, as the parser represents them",
-                    "string values are the raw bodies (the parser does not unescape)"],
+                    "string values are the raw bodies (the parser does not unescape)",
+                    "domain of the encoder theorems (spell_is_Spells, spell_parse_encoder*): the decidable predicate `wfDeep` of Spec/SpellingWF.lean. It excludes exactly: "
+                    "integers outside +-(2^63-1); reals with numerator >= 2^120 or a denominator that is not 10^k (1<=k<30); NUL bytes in names/keys; comments and streams; "
+                    "object numbers above i64::MAX (ref_range_witness: `wf` allowed them, the parser reads 2^63 as a real); null dictionary values (null_value_witness: the "
+                    "entry is dropped); repeated keys (dup_key_witness: rejected); the key `\\x01nul` anywhere but in the LAST written position (nulKey_not_last_witness: the "
+                    "encoder's extra `/#01nul null` entry would repeat a key with a non-null value). Dictionaries may be written in any entry order: the result is `canon v` "
+                    "(sorted maps), = v when `sortedDeep v` (canon_sorted). The former partial lemma spell_is_Spells_partial (scalars/references) is now only a lemma of spell_is_Spells."],
 }
 LEVEL = {
     "design_ref": "DESIGN.md 3.C02/C16",
-    "technique": "Lean 4 theorem `spell_parse` (all values x all legal spellings x all contexts x all depths) over an executable model + spelling-generator differential correspondence",
+    "technique": "Lean 4 theorems `spell_parse` (all values x all legal spellings x all contexts x all depths) and `spell_parse_encoder` (the same on the executable encoder: all values in `wfDeep` x all choice streams) over an executable model + spelling-generator differential correspondence",
     "text": "Machine-checked proof of the whole statement on the executable model (spell_parse): for every value, every legal spelling of it "
             "(relational spec `Spells`: all token spellings, all whitespace/comment separators - non-empty exactly between regular characters -, "
             "arrays and dictionaries nested to any depth, null-valued entries dropped, repeated non-null keys excluded), after any whitespace/comment "
@@ -48,5 +51,10 @@ LEVEL = {
             "parse_pdf_obj returns exactly the value, located at the spelling, cursor after its last byte, depth restored. For ALL inputs: an accepted "
             "value contains no null-valued dictionary entry at any level (dict_no_null_values); a repeated non-null key is rejected whatever follows "
             "(dict_duplicate_rejected). The model is tied to the real parser by the correspondence run, whose oracle knows the value that was spelled "
-            "(random values x random encoder choices x contexts); the encoder's scalars are proved to be legal spellings (spell_is_Spells_partial).",
+            "(random values x random encoder choices x contexts). The generator itself is inside the theorem: the executable encoder `spell` is proved to "
+            "produce a legal spelling for every value of its decidable domain `wfDeep` and EVERY choice stream (spell_is_Spells: arrays, dictionaries in any "
+            "entry order, the extra `/#01nul null` entries, separators decided on bytes), so spell_parse_encoder(_canon) states the round trip on "
+            "`ws ++ spell v choices ++ rest` with no relational premise; the generator's 15 contexts are proved legal (genContexts_follow), the `sp` "
+            "case of the driver is the theorem generator_case_parses, and every generated value is checked to lie in `wfDeep` (build-time #eval and a "
+            "`genbad` case at run time). The exclusions of `wfDeep` each have a proved witness.",
 }
